@@ -1,11 +1,11 @@
-(* metric queries: prints, for every case of Cases.cases, "<id> <analyze_m15 0|1><m15_representable 0|1><number of label-filter stages> <hex sql | -> ..." *)
+(* metric queries: prints, for every case of Cases.cases, "<id> <analyze_m15 0|1><m15_representable 0|1><number of label-filter stages><y|n|x: planned script = norm_script (script as written)> <hex sql | -> ..." *)
 let hex_of_chars (l : char list) : string =
   let b = Buffer.create 4096 in
   List.iter (fun c -> Buffer.add_string b (Printf.sprintf "%02x" (Char.code c))) l;
   Buffer.contents b
 
 let () =
-  List.iter (fun (id, script, fin, ctx, runs) ->
+  List.iter (fun (id, script, fin, ctx, runs, script0) ->
     let rec nat_of_int n = if n <= 0 then Logqlplan.O else Logqlplan.S (nat_of_int (n - 1)) in
     let res = Logqlplan.script_sqls script fin ctx (nat_of_int runs) in
     print_string (string_of_int id);
@@ -13,6 +13,11 @@ let () =
     print_string (if Logqlplan.m15_representable script then "1" else "0");
     let rec int_of_nat = function Logqlplan.O -> 0 | Logqlplan.S k -> 1 + int_of_nat k in
     print_string (string_of_int (int_of_nat (Logqlplan.n_label_filters script)));
+    (* the script the planners got = norm_script (the script as written); "x" = the script has a breakpoint, the reader does not hand it over whole *)
+    print_string (match script0 with
+      | Some (Some s0) -> if Logqlplan.norm_script s0 = script then "y" else "n"
+      | Some None -> if Logqlplan.norm_script script = script then "y" else "n"
+      | None -> "x");
     List.iter (fun o -> print_char ' '; match o with
       | Some s -> print_string (hex_of_chars s)
       | None -> print_string "-") res;
